@@ -76,6 +76,11 @@ M = [
   "          && (printHidden || !mpArgObj->isHidden() || !printIsMandatory)"),
  ("c18_long_only_uses_short_test", "src/library/prog_args/detail/argument_desc.cpp", "                  && mpArgObj->key().hasStringArg()));",
   "                  && mpArgObj->key().hasCharArg()));"),
+ ("x06_flush_counted_after_reset", "src/celma/common/write_buffer.hpp", "      P::flushed( mWritePos);\n      mWritePos = 0;", "      mWritePos = 0;\n      P::flushed( mWritePos);"),
+ ("x06_passthrough_not_counted", "src/celma/common/write_buffer.hpp", "      writeData( reinterpret_cast< const unsigned char* const>( data), len);\n      P::flushed( len);", "      writeData( reinterpret_cast< const unsigned char* const>( data), len);"),
+ ("x06_source_read_counts_request", "src/celma/common/read_buffer.hpp", "      P::sourceRead( data_read);", "      P::sourceRead( N - mDataEnd + data_read);"),
+ ("x06_buffer_read_fast_path_missing", "src/celma/common/read_buffer.hpp", "      mDataStart += len;\n      P::bufferRead( len);\n      return;", "      mDataStart += len;\n      return;"),
+ ("x06_source_reads_counted_once_per_fill", "src/celma/common/read_buffer.hpp", "      mDataEnd += data_read;\n      P::sourceRead( data_read);\n   } while ((mDataEnd - mDataStart) < min_length);", "      mDataEnd += data_read;\n   } while ((mDataEnd - mDataStart) < min_length);\n   P::sourceRead( mDataEnd - mDataStart);"),
 ]
 root = os.path.dirname(os.path.dirname(os.path.abspath(__file__)))
 sel = sys.argv[1:]
